@@ -166,16 +166,19 @@ class PackageGenerator:
         lines = [*description.split("\n"), ""]
         params = params or []
         attrs = attrs or []
+        def ind(text: str, pad: str) -> list[str]:
+            return [pad + ln for ln in text.split("\n")]
+
         if style == "NUMPYDOC":
             if params:
                 lines += ["Parameters", "----------"]
                 for n, t, d in params:
-                    lines += [f"{n} : {t}" if t else n, f"    {d}"]
+                    lines += [f"{n} : {t}" if t else n, *ind(d, "    ")]
                 lines.append("")
             if attrs:
                 lines += ["Attributes", "----------"]
                 for n, t, d in attrs:
-                    lines += [f"{n} : {t}" if t else n, f"    {d}"]
+                    lines += [f"{n} : {t}" if t else n, *ind(d, "    ")]
                 lines.append("")
             if named_returns:
                 lines += ["Returns", "-------"]
@@ -190,7 +193,9 @@ class PackageGenerator:
             if params:
                 lines.append("Args:")
                 for n, t, d in params:
-                    lines.append(f"    {n} ({t}): {d}" if t else f"    {n}: {d}")
+                    dl = d.split("\n")
+                    lines.append(f"    {n} ({t}): {dl[0]}" if t else f"    {n}: {dl[0]}")
+                    lines += ["        " + x for x in dl[1:]]
                 lines.append("")
             if attrs:
                 lines.append("Attributes:")
@@ -203,7 +208,9 @@ class PackageGenerator:
                 lines += ["Examples:", f"    >>> {example}", ""]
         elif style == "REST":
             for n, t, d in params:
-                lines.append(f":param {n}: {d}")
+                dl = d.split("\n")
+                lines.append(f":param {n}: {dl[0]}")
+                lines += ["    " + x for x in dl[1:]]
                 if t:
                     lines.append(f":type {n}: {t}")
             if returns:
@@ -213,7 +220,7 @@ class PackageGenerator:
             lines.append("")
         else:  # PLAINTEXT: free text, everything is description
             for n, _t, d in params:
-                lines.append(f"{n} - {d}")
+                lines += f"{n} - {d}".split("\n")
             if returns:
                 lines.append(f"gives {returns[1]}")
             lines.append("")
@@ -325,6 +332,8 @@ class PackageGenerator:
             kinds[-1] = "kwonly"
         for i, k in enumerate(kinds):
             pn = self.ident(f"p{i}")
+            if i == 1 and r.random() < 0.2:
+                pn = "p0_max"  # a name that has another parameter's name as prefix
             while pn in used:
                 pn += "x"
             used.add(pn)
@@ -423,7 +432,15 @@ class PackageGenerator:
                     if self.f("DOC_TYPE_MISMATCH") and r.random() < 0.5:
                         # the docstring states another type than the hint (or a type where there is no hint)
                         t = r.choice(["str", "int", "float", "bool", "list[int]", "dict[str, float]", "tuple[int, str]", "set[str]", "list[str]"])
-                    pdocs.append((pn, t, f"About {self.tokens.new('P', fq, pn)}."))
+                    ptok = self.tokens.new("P", fq, pn)
+                    ptext = f"About {ptok}."
+                    if r.random() < 0.25:
+                        ptext += f"\nsecond line about {ptok}"
+                    self.tokens.table[ptok]["lines"] = ptext.split("\n")
+                    pdocs.append((pn, t, ptext))
+            if var and self.doc_style in ("NUMPYDOC", "GOOGLE") and r.random() < 0.6:
+                vtok = self.tokens.new("P", fq, "args")
+                pdocs.append(("*args", "", f"Variadic {vtok}."))
             rdoc = None
             named = None
             m_t = None
@@ -606,6 +623,8 @@ class PackageGenerator:
             for s in ("a", "b"):
                 if s not in subs:
                     subs.append(s)
+        if self.f("KEYWORD_NAMES") and r.random() < 0.5:
+            subs.append(r.choice(["val", "out", "sub", "schema"]))  # package segments that are Safe-DS keywords
         if self.f("SNAKE_NAMES"):
             subs = [s if len(s) > 1 else f"{s}_part" for s in subs]
         sub_a, sub_b = (subs + subs)[0], (subs + subs)[1]
